@@ -71,10 +71,17 @@ def run_small(scn, tid, rng, root, BarcodeParser):
     tr = lambda bc: ''.join(LET[letters[x - 1]] for x in bc)
     files = scn['files']
     d = tempfile.mkdtemp(prefix='bcdir_', dir=root)
-    alias = 'w%d' % (tid % 7)
+    # alias names whose end looks like a piece of the '.bc' extension (b, c, '.', 'bc'); the alias of a file is its name
+    # without '.bc' / '.bc.gz' / '.tsv'. 'a.bcd' (a '.bc' in the middle) is registered by the parser under another name
+    # ('ad'): recorded, judged as outside the statement.
+    alias = ('w%d' % (tid % 7), 'mylib', 'plate_c', 'scb', 'lib.', 'xbc', 'pl.b', 'c')[tid % 8]
+    alias_kind = 'plain'
+    if tid % 50 == 7:
+        alias, alias_kind = 'a.bcd', 'mid_bc'
+    lazyarg = scn.get('lazyarg', 'this' if lazy else 'none')
     wl = []
     via = 'file'
-    if len(files) == 1 and not lazy and tid % 5 == 0:
+    if len(files) == 1 and lazyarg == 'none' and tid % 5 == 0:
         via = 'api'
     names = [alias + ('.bc.gz' if tid % 7 == 3 else '.bc'), alias + '.tsv']
     # (two files, one alias: which one glob lists first does not matter for the P-level truth, the union)
@@ -103,7 +110,7 @@ def run_small(scn, tid, rng, root, BarcodeParser):
             else:
                 with open(p, 'w', newline='') as h:
                     h.write(data)
-    if via == 'file' and tid % 4 == 0:
+    if via == 'file' and (tid % 4 == 0 or lazyarg == 'other'):
         # another alias in the same directory whose name extends this one, with the one barcode that would change most
         # answers if the two whitelists were mixed up
         with open(os.path.join(d, alias + 'x.bc'), 'w') as h:
@@ -116,7 +123,14 @@ def run_small(scn, tid, rng, root, BarcodeParser):
         if tid % 10 == 0:
             parser.expand(k, alias=alias)      # expanding twice is idempotent
     else:
-        lz = None if not lazy else ((alias,) if tid % 2 else '*')
+        # the lazyLoad argument as seen from this alias: None / names this alias (alone or with a name matching no file) or '*' /
+        # names only OTHER aliases: exactly the tuple demux.py passes, or the decoy alias of this directory (a really mixed parser)
+        if lazyarg == 'none':
+            lz = None
+        elif lazyarg == 'other':
+            lz = ('10x_3M-february-2018',) if tid % 2 else (alias + 'x', 'nofile')
+        else:
+            lz = ((alias,), '*', (alias, 'nofile'))[tid % 3]
         parser = BarcodeParser(d, hammingDistanceExpansion=k, lazyLoad=lz)
     touch = scn.get('touch', 'lookup')
     if lazy and touch == 'getitem':
@@ -126,7 +140,8 @@ def run_small(scn, tid, rng, root, BarcodeParser):
     ans = [observe(parser, q, alias) for q in qs]
     again = [observe(parser, q, alias) for q in qs[:3] + qs[-1:]]       # history: the same parser asked again
     shutil.rmtree(d, True)
-    return {'ev': 'small', 'again': again, 'tid': tid, 'L': L, 'k': k, 'lazy': lazy, 'touch': touch, 'via': via, 'nfiles': len(files), 'fmt': fmts,
+    return {'ev': 'small', 'again': again, 'tid': tid, 'L': L, 'k': k, 'lazy': lazy, 'lazyarg': lazyarg, 'alias': alias,
+            'alias_kind': alias_kind, 'touch': touch, 'via': via, 'nfiles': len(files), 'fmt': fmts,
             'wl': wl, 'ans': ans}
 
 
@@ -214,7 +229,7 @@ def replay(out, ev, BarcodeParser, md):
                 part = ev['wl'][fno * per:(fno + 1) * per] if fno < n - 1 else ev['wl'][fno * per:]
                 files.append({'fmt': ev['fmt'][fno], 'bcs': [b for b, _ in part], 'idx': [i for _, i in part]})
             d = tempfile.mkdtemp(prefix='bcdir_', dir=root)
-            alias = 'w'
+            alias = ev.get('alias', 'w')
             if ev['via'] == 'api':
                 parser = BarcodeParser(d)
                 for b, it in ev['wl']:
@@ -226,7 +241,9 @@ def replay(out, ev, BarcodeParser, md):
                              for b, it in zip(fl['bcs'], fl['idx'])]
                     with open(os.path.join(d, alias + ('.bc', '.tsv')[fno]), 'w') as h:
                         h.write('\n'.join(lines) + '\n')
-                parser = BarcodeParser(d, hammingDistanceExpansion=ev['k'], lazyLoad=(alias,) if ev['lazy'] else None)
+                la = ev.get('lazyarg', 'this' if ev['lazy'] else 'none')
+                parser = BarcodeParser(d, hammingDistanceExpansion=ev['k'],
+                                       lazyLoad={'none': None, 'other': ('10x_3M-february-2018',)}.get(la, (alias,)))
                 if ev['lazy'] and ev.get('touch') == 'getitem':
                     parser[alias]
             e2 = dict(ev)
@@ -297,9 +314,15 @@ def main():
                 for k in (0, 1, 2):
                     # one parser per (directory, k) serves all its aliases one after the other (as one demultiplexer run does)
                     if (sub, k) not in parsers:
-                        parsers[(sub, k)] = BarcodeParser(folder, hammingDistanceExpansion=k, lazyLoad='*')
+                        if k == 1 and sub == 'barcodes':     # exactly as demux.py builds its barcode parser (mixed lazy / eager)
+                            parsers[(sub, k)] = BarcodeParser(hammingDistanceExpansion=k, barcodeDirectory=folder,
+                                                              lazyLoad=("10x_3M-february-2018",))
+                        elif k == 1:                          # ... and its index parser (all eager)
+                            parsers[(sub, k)] = BarcodeParser(hammingDistanceExpansion=k, barcodeDirectory=folder)
+                        else:
+                            parsers[(sub, k)] = BarcodeParser(folder, hammingDistanceExpansion=k, lazyLoad='*')
                     parser = parsers[(sub, k)]
-                    touch = 'getitem' if k == 1 else 'lookup'      # first access to the lazy alias
+                    touch = 'getitem' if k == 2 else 'lookup'      # first access to the lazy alias
                     if touch == 'getitem':
                         parser[alias]
                     tid += 1
